@@ -13,6 +13,7 @@
   sound-seed         the sound end starts from a value for which the invariant holds: 0 for rho (with cdp_delta(0, .) = 0),
                      rho + 2 sqrt(rho log(1/delta)) for eps (Bun-Steinke 2016, Prop. 1.3)
   clamp              cdp_delta returns min(delta, 1)
+  early-exit         the only other returns are the tabled degenerate cases under exact tests: rho == 0 (delta 0 / eps 0) and delta >= 1
 Not decided: monotonicity, mutual inversion within tolerance, comparison with the exact Gaussian delta (numeric).
 """
 import ast
@@ -173,19 +174,50 @@ def check_cdp_delta(ctx, fi):
     rv = rets[0].value
     ok = isinstance(rv, ast.Call) and U(rv.func) in ('min',) and {U(x) for x in rv.args} in ({dname, '1.0'}, {dname, '1'})
     ctx.ob('clamp', fi, rets[0], ok, 'cdp_delta must return min(delta, 1)')
+    mod = fi.module
+    early_exits(ctx, fi, lambda t: is_exact_zero_test(t, rho, mod), rets, 'rho == 0')
     zero = zero_case(fi, rho)
     ctx.ob('sound-seed', fi, zero or fi.node, zero is not None,
            'cdp_delta(0, eps) must be 0 (rho = 0 is the seed of the rho search): early return `if %s == 0: return 0`' % rho,
            construct=U(zero) if zero is not None else 'no rho == 0 case in cdp_delta')
 
 
+def is_exact_zero_test(t, name, mod):
+    """`name == 0` (or a module-level helper whose body is exactly that comparison)"""
+    if isinstance(t, ast.Compare) and len(t.ops) == 1 and U(t.left) == name and isinstance(t.ops[0], ast.Eq) \
+            and U(t.comparators[0]) in ('0', '0.0'):
+        return True
+    if isinstance(t, ast.Call) and isinstance(t.func, ast.Name) and len(t.args) == 1 and U(t.args[0]) == name \
+            and t.func.id in mod.funcs:
+        h = mod.funcs[t.func.id]
+        body = h.body
+        if len(body) == 1 and isinstance(body[0], ast.Return) and len(h.params) == 1:
+            return is_exact_zero_test(body[0].value, h.params[0], mod)
+    return False
+
+
 def zero_case(fi, rho):
     for s in fi.body:
-        if isinstance(s, ast.If) and isinstance(s.test, ast.Compare) and U(s.test.left) == rho and \
-                isinstance(s.test.ops[0], ast.Eq) and U(s.test.comparators[0]) in ('0', '0.0') and \
+        if isinstance(s, ast.If) and is_exact_zero_test(s.test, rho, fi.module) and \
                 len(s.body) == 1 and isinstance(s.body[0], ast.Return) and U(s.body[0].value) in ('0', '0.0'):
             return s
     return None
+
+
+def early_exits(ctx, fi, allowed_tests, final_returns, what):
+    """every return other than the final one must be one of the tabled degenerate cases (exact tests)"""
+    n = 0
+    for r in walk_shallow(fi.node):
+        if not isinstance(r, ast.Return) or any(r is f for f in final_returns):
+            continue
+        n += 1
+        par = getattr(r, '_parent', None)
+        ok = isinstance(par, ast.If) and r in par.body and len(par.body) == 1 and allowed_tests(par.test) \
+            and r.value is not None and U(r.value) in ('0', '0.0')
+        ctx.ob('early-exit', fi, par if isinstance(par, ast.If) else r, ok,
+               '%s: an early return must be one of the degenerate cases with an exact test (%s) returning 0; found `%s` under `%s`'
+               % (fi.name, what, U(r), U(par.test) if isinstance(par, ast.If) else 'no test'))
+    return n
 
 
 def check_inverse(ctx, fi, cd, searched, kind):
@@ -224,6 +256,18 @@ def check_inverse(ctx, fi, cd, searched, kind):
     ctx.ob('sound-side', fi, rets[0], U(rets[0].value) == sound,
            'the end assigned while `%s(.) <= %s` holds is `%s`; the function must return it (returns `%s`)'
            % (cd.name, delta_param, sound, U(rets[0].value)))
+    mod = fi.module
+
+    def allowed(t):
+        parts = t.values if isinstance(t, ast.BoolOp) and isinstance(t.op, ast.Or) else [t]
+        for x in parts:
+            big_delta = isinstance(x, ast.Compare) and len(x.ops) == 1 and U(x.left) == delta_param and \
+                isinstance(x.ops[0], (ast.GtE, ast.Gt)) and U(x.comparators[0]) in ('1', '1.0')
+            zero_rho = kind == 'eps' and is_exact_zero_test(x, other_param, mod)
+            if not (big_delta or zero_rho):
+                return False
+        return True
+    early_exits(ctx, fi, allowed, rets, 'delta >= 1' + (' or rho == 0' if kind == 'eps' else ''))
     mid = ev.ev(S.mid_stmt.value)
     ctx.ob('midpoint', fi, S.mid_stmt, mid.eq((sym(S.true_var) + sym(S.false_var)) / const(2)),
            'search must bisect its own bracket: %s = (%s + %s)/2' % (S.mid_var, S.true_var, S.false_var))
